@@ -10,7 +10,12 @@ args=[a for a in args if a!='--raise']
 if args[0]=='--root': root=args[1]; args=args[2:]
 repo = Repo(root)
 mod = repo.module(args[0])
-f = find_def(mod, args[1])
+if args[1].startswith('ProvidesClass.'):
+    from zverif.rules.picklesem import provides_class
+    from zverif.pyfront import methods_of
+    f = methods_of(provides_class(mod))[args[1].split('.')[1]]
+else:
+    f = find_def(mod, args[1])
 for ps in summaries(f, normal_only=not allp):
     print('---', ps.kind, 'ret=', ps.ret_src(), 'explicit' if ps.ret_node is not None else '')
     for c,t,p in ps.order: print('   fact', p, c, t)
